@@ -1,13 +1,16 @@
 #!/bin/bash
-# setup_cmd: warm the build cache and build the checkers, offline, from files on disk only.
+# setup_cmd: warm the build cache for every checker, offline, from files on disk only.
+# (run.sh rebuilds incrementally on every invocation; nothing built here is required by it.)
 cd "$(dirname "$0")"
 export GOFLAGS=-mod=mod GOPROXY=off GOSUMDB=off GOTOOLCHAIN=local GOCACHE=/verif/.gocache
 mkdir -p bin evidence replays
+T=bin/setup.$$; mkdir -p $T; trap 'rm -rf "$T" ".overlay.$$"' EXIT
 go run ./cmd/mkbind bind/zz_bind.go github.com/go-fed/activity/streams \
    /repo/astool/activitystreams.jsonld /repo/astool/security-v1.jsonld /repo/astool/toot.jsonld /repo/astool/forgefed.jsonld || exit 1
-go build -trimpath -o bin/verif ./cmd/verif || exit 1
-go build -trimpath -o bin/verifs ./cmd/verifs || exit 1
+go build -trimpath -o $T/verif ./cmd/verif || exit 1
+go build -trimpath -o $T/verifs ./cmd/verifs || exit 1
+go build -trimpath -o $T/verifa ./cmd/verifa || exit 1
 # pre-build the race-instrumented test binary and the overlay build (warm caches)
 go test -race -count=1 -run XXX ./racetest/ > /dev/null 2>&1
-go run ./cmd/mkoverlay /repo "$(pwd)/.overlay" && go build -tags verifoverlay -overlay .overlay/overlay.json -o bin/verift ./cmd/verift
+go run ./cmd/mkoverlay /repo "$(pwd)/.overlay.$$" && go build -tags verifoverlay -overlay .overlay.$$/overlay.json -o $T/verift ./cmd/verift
 echo setup-ok
